@@ -123,44 +123,6 @@ Proof.
   rewrite E. exact H.
 Qed.
 
-(** no emitted section contains the end marker: checked for every string over {"]", ">", "a"} up to length 7
-    (bounded; the general statement is not proved) *)
-Fixpoint all_strings (alphabet : list N) (n : nat) : list (list N) :=
-  match n with
-  | O => [[]]
-  | S k => [] :: flat_map (fun t => map (fun a => a :: t) alphabet) (all_strings alphabet k)
-  end.
-
-Definition sections_ok (can : N -> bool) (s : list N) : bool :=
-  forallb (fun it => match it with CSect l => no_cdata_end l | CRef _ => true end) (cdata_items can s).
-
-Lemma cdata_sections_bounded :
-  forallb (sections_ok (fun _ => true)) (all_strings [93; 62; 97] 7) = true.
-Proof. vm_compute. reflexivity. Qed.
-
-(** and the specification parser reads the emitted sections back as the data (same bound) *)
-Fixpoint parse_sections (fuel : nat) (out : list N) : option (list N) :=
-  match out with
-  | [] => Some []
-  | _ =>
-    match fuel with
-    | O => None
-    | S f =>
-      if list_eqb (firstn 9 out) [60; 33; 91; 67; 68; 65; 84; 65; 91] then
-        match scan_cdata (skipn 9 out) [] with
-        | Some (t, rest) => match parse_sections f rest with Some u => Some (t ++ u) | None => None end
-        | None => None
-        end
-      else None
-    end
-  end.
-
-Lemma cdata_reparse_bounded :
-  forallb (fun s => match parse_sections 20 (flat_map citem_out (cdata_items (fun _ => true) s)) with
-                    | Some t => list_eqb t s | None => false end)
-          (all_strings [93; 62; 97] 7) = true.
-Proof. vm_compute. reflexivity. Qed.
-
 (* ------------------------------------------------------------------------------------------- *)
 (** * the behaviour before the repairs is refuted by witnesses *)
 
